@@ -868,9 +868,18 @@ static void fiber_trampoline () { fiber_main (); abort (); }
 
 extern "C" int rt_spawn (void (*fn) (void *), void *arg) {
 	int t;
+	bool reuse = false;
 	for (t = 1; t < RT_MAXT; t++) if (g_fib[t].state == F_UNUSED) break;
-	if (t == RT_MAXT) { fprintf (stderr, "simrt: too many threads\n"); abort (); }
+	if (t == RT_MAXT) {
+		// no fresh slot: continue in the slot of the most recently created thread that has finished (a later
+		// janitor takes over the slot of an earlier one; for happens-before it is the same thread doing more work)
+		for (t = RT_MAXT - 1; t >= 1; t--) if (g_fib[t].state == F_FINISHED) break;
+		if (t < 1) { g_st.budget_exceeded = 1; raise_verdict (RT_V_BUDGET, 0, "budget", "thread slots exhausted"); }
+		reuse = true;
+	}
 	Fiber *f = &g_fib[t];
+	Clk saved_vc[RT_MAXT];
+	memcpy (saved_vc, g_vc[t], sizeof (saved_vc));
 	memset (f, 0, sizeof (*f));
 	f->tid = t; f->state = F_RUNNABLE; f->fn = fn; f->arg = arg; f->deadline = kNoDeadline;
 	uintptr_t top = stack_hi (t) - 64;
@@ -884,6 +893,7 @@ extern "C" int rt_spawn (void (*fn) (void *), void *arg) {
 	int p = curtid ();
 	memcpy (g_vc[t], g_vc[p], sizeof (g_vc[t]));
 	g_vc[t][t] = 1;
+	if (reuse) for (int u = 0; u < RT_MAXT; u++) { if (saved_vc[u] > g_vc[t][u]) g_vc[t][u] = saved_vc[u]; if (u == t) g_vc[t][t] = saved_vc[t] + 1; }
 	g_vc[p][p]++;
 	f->prio = (g_cfg.strategy == RT_S_PCT) ? (int) (1000 + (rng_next () % 1000)) : 0;
 	return t;
